@@ -1,10 +1,21 @@
 """Unit crypto (Verus): anemo's identity-attribution glue around rustls / webpki (C01 glue, C03 pin).
 
 Functions under contract: crypto.rs ExpectedCertVerifier::verify_server_cert, the six verify_tls1{2,3}_signature impls,
-CertVerifier::{offer_client_auth, client_auth_mandatory}, peer_id_from_certificate; connection.rs Connection::{new, try_peer_id}.
-Everything cryptographic is an uninterpreted predicate: rustls::crypto::verify_tls1x_signature, webpki, x509 parsing.
-NOT verified: CertVerifier::verify_client_cert / verify_server_cert (iterator + closure pipelines over &str),
-and the two statics SUPPORTED_SIG_ALGS / SUPPORTED_ALGORITHMS (checked textually, see `structural`).
+CertVerifier::{offer_client_auth, client_auth_mandatory, verify_server_cert, verify_client_cert}, prepare_for_self_signed, pki_error,
+peer_id_from_certificate; connection.rs Connection::{new, try_peer_id}.
+Everything cryptographic is an uninterpreted predicate: rustls::crypto::verify_tls1x_signature, x509 parsing, and webpki's four entry points
+(EndEntityCert::try_from, anchor_from_trusted_cert, verify_for_usage, verify_is_valid_for_subject_name).  What IS verified about the two
+certificate verifiers is the glue the property C14 lives in: which certificate is the trust root (the end entity itself: self-signed), which
+algorithms and which key usage webpki is asked for, that every webpki failure is a refusal, that the requested name must be one the verifier is
+configured for and the certificate valid for it (dialer side) / valid for at least one accepted name (listener side).
+Shape rules X13 (trusted, stated here): three iterator pipelines Verus does not accept are rendered as calls of assumed generic functions whose
+contracts quantify over the closure's own contract --
+    <recv>.iter().find(<closure>)                                   -> iter_find(&<recv>, <closure>)
+    <recv>.iter().map(<closure>).collect::<Result<Vec<_>, _>>()     -> iter_map_collect_result(&<recv>, <closure>)
+    <recv>.into_iter().any(<closure>)                               -> into_iter_any(<recv>, <closure>)
+and the three closures get the contract that their body's shape determines (a string comparison; ServerName::try_from; a subject-name check);
+a closure of another shape stays without contract (the function is then tainted: undecided unless a failing input is reproduced).
+The two statics SUPPORTED_SIG_ALGS / SUPPORTED_ALGORITHMS are checked textually, see `structural`.
 """
 import re
 import prelude as P
@@ -24,7 +35,17 @@ pub type Result<T, E = Error> = core::result::Result<T, E>;
 pub struct AsStdError { pub e: Error }
 impl From<Error> for AsStdError { #[verifier::external_body] fn from(e: Error) -> (r: AsStdError) { unimplemented!() } }
 pub struct CertificateDer { pub der: Seq<u8> }
-pub struct ServerName { pub n: Seq<char> }
+// rustls::pki_types::ServerName: a DNS name (its text) or an IP address
+pub struct DnsName { pub n: Seq<char> }
+impl DnsName { #[verifier::external_body] pub fn as_ref(&self) -> (r: &str) ensures r@ == self.n { unimplemented!() } }
+pub struct IpAddrName { pub a: u8 }
+pub enum ServerName { DnsName(DnsName), IpAddress(IpAddrName) }
+pub struct InvalidDnsNameError;
+pub uninterp spec fn dns_name_wf(s: Seq<char>) -> bool;     // rustls: the text is syntactically a DNS name (or an IP address literal: excluded, network names are not)
+impl ServerName {
+    #[verifier::external_body] pub fn try_from(s: &str) -> (r: core::result::Result<ServerName, InvalidDnsNameError>)
+        ensures r is Ok <==> dns_name_wf(s@), r is Ok ==> r->Ok_0 == ServerName::DnsName(DnsName { n: s@ }) { unimplemented!() }
+}
 pub struct UnixTime { pub t: u64 }
 pub struct DigitallySignedStruct { pub scheme: rustls::SignatureScheme, pub sig: Seq<u8> }
 pub struct ServerCertVerified;
@@ -32,6 +53,7 @@ pub struct ClientCertVerified;
 pub struct HandshakeSignatureValid;
 impl HandshakeSignatureValid { #[verifier::external_body] pub fn assertion() -> (r: Self) { unimplemented!() } }
 impl ServerCertVerified { #[verifier::external_body] pub fn assertion() -> (r: Self) { unimplemented!() } }
+impl ClientCertVerified { #[verifier::external_body] pub fn assertion() -> (r: Self) { unimplemented!() } }
 #[derive(PartialEq, Eq, Clone, Copy, Structural)]
 pub enum SignatureScheme { ED25519, EcdsaNistp256Sha256, RsaPssSha256, Unknown }
 pub struct WebPkiSupportedAlgorithms { pub id: u8 }
@@ -43,7 +65,9 @@ pub mod rustls {
     pub use super::SignatureScheme;
     pub struct OtherError(pub Arc<AsStdError>);
     pub enum CertificateError { BadEncoding, BadSignature, Other(OtherError) }
-    pub enum Error { InvalidCertificate(CertificateError), UnsupportedNameType, General(u8) }
+    pub struct GeneralMsg;
+    impl<'a> From<&'a str> for GeneralMsg { #[verifier::external_body] fn from(s: &'a str) -> (r: GeneralMsg) { unimplemented!() } }
+    pub enum Error { InvalidCertificate(CertificateError), UnsupportedNameType, General(GeneralMsg) }
     pub mod client { pub mod danger { pub use super::super::super::HandshakeSignatureValid; } }
     pub mod crypto {
         use super::super::*;
@@ -112,6 +136,67 @@ pub mod ed25519 {
     }
 }
 
+// ---------- webpki (rustls-webpki) as four uninterpreted entry points ----------
+#[derive(Clone, Copy)]
+pub struct SigAlgs { pub id: u8 }
+pub open spec fn ed25519_sig_algs() -> SigAlgs { SigAlgs { id: 1 } }
+// the crate's static: [webpki::ring::ED25519] (its definition is checked textually on every run, obligation structural::supported_sig_algs)
+pub exec static SUPPORTED_SIG_ALGS: SigAlgs ensures SUPPORTED_SIG_ALGS == ed25519_sig_algs() { SigAlgs { id: 1 } }
+#[derive(PartialEq, Eq, Clone, Copy, Structural)]
+pub enum KeyUsage { Server, Client }
+impl KeyUsage {
+    pub fn server_auth() -> (r: KeyUsage) ensures r == KeyUsage::Server { KeyUsage::Server }
+    pub fn client_auth() -> (r: KeyUsage) ensures r == KeyUsage::Client { KeyUsage::Client }
+}
+pub struct TrustAnchor { pub of: Seq<u8> }          // a trust anchor made from the certificate with this DER
+pub mod webpki {
+    use super::*;
+    pub use super::{KeyUsage, TrustAnchor};
+    pub enum Error { BadDer, BadDerTime, InvalidSignatureForPublicKey, UnsupportedSignatureAlgorithm, UnsupportedSignatureAlgorithmForPublicKey,
+                     CertExpired, CertNotValidYet, CertNotValidForName, UnknownIssuer, RequiredEkuNotFound, Other }
+    pub uninterp spec fn ee_parses(der: Seq<u8>) -> bool;          // EndEntityCert::try_from accepts the DER
+    pub uninterp spec fn anchor_parses(der: Seq<u8>) -> bool;      // anchor_from_trusted_cert accepts the DER
+    // path validation: the end entity chains, through the given intermediates, to one of the GIVEN trust anchors, every signature on the way made
+    // with one of the GIVEN algorithms, everything within its validity at `now`, the end entity permitting the GIVEN usage
+    pub uninterp spec fn path_ok(ee: Seq<u8>, algs: SigAlgs, roots: Seq<TrustAnchor>, inter: Seq<CertificateDer>, now: UnixTime, usage: KeyUsage) -> bool;
+    pub uninterp spec fn name_ok(ee: Seq<u8>, name: ServerName) -> bool;   // the certificate is valid for this subject name
+    pub struct EndEntityCert { pub der: Seq<u8> }
+    pub struct VerifiedPath { pub ee: Seq<u8> }
+    pub struct RevocationOptions;
+    pub struct Policy;
+    impl EndEntityCert {
+        #[verifier::external_body] pub fn try_from(c: &CertificateDer) -> (r: core::result::Result<EndEntityCert, Error>)
+            ensures r is Ok <==> ee_parses(c.der), r is Ok ==> r->Ok_0.der == c.der { unimplemented!() }
+        #[verifier::external_body] pub fn verify_for_usage(&self, algs: SigAlgs, roots: &Vec<TrustAnchor>, inter: &[CertificateDer], now: UnixTime, usage: KeyUsage, rev: Option<RevocationOptions>, pol: Option<Policy>) -> (r: core::result::Result<VerifiedPath, Error>)
+            ensures r is Ok <==> path_ok(self.der, algs, roots@, inter@, now, usage), r is Ok ==> r->Ok_0.ee == self.der { unimplemented!() }
+        #[verifier::external_body] pub fn verify_is_valid_for_subject_name(&self, name: &ServerName) -> (r: core::result::Result<(), Error>)
+            ensures r is Ok <==> name_ok(self.der, *name) { unimplemented!() }
+    }
+    impl VerifiedPath { #[verifier::external_body] pub fn end_entity(&self) -> (r: &EndEntityCert) ensures r.der == self.ee { unimplemented!() } }
+    #[verifier::external_body] pub fn anchor_from_trusted_cert(c: &CertificateDer) -> (r: core::result::Result<TrustAnchor, Error>)
+        ensures r is Ok <==> anchor_parses(c.der), r is Ok ==> r->Ok_0.of == c.der { unimplemented!() }
+}
+pub use webpki::Error::*;
+// ---------- X13: the three iterator pipelines of the certificate verifiers as assumed generic functions over the closure's own contract ----------
+#[verifier::external_body]
+pub fn iter_find<'a, T, F: Fn(&&'a T) -> bool>(v: &'a Vec<T>, f: F) -> (r: Option<&'a T>)
+    requires forall|i: int| 0 <= i < v@.len() ==> call_requires(f, (&&v@[i],)),
+    ensures r is Some ==> exists|i: int| 0 <= i < v@.len() && *r->Some_0 == #[trigger] v@[i] && call_ensures(f, (&&v@[i],), true),
+            r is None ==> forall|i: int| 0 <= i < v@.len() ==> call_ensures(f, (&&#[trigger] v@[i],), false),
+{ v.iter().find(f) }
+#[verifier::external_body]
+pub fn iter_map_collect_result<'a, T, U, E, F: Fn(&'a T) -> core::result::Result<U, E>>(v: &'a Vec<T>, f: F) -> (r: core::result::Result<Vec<U>, E>)
+    requires forall|i: int| 0 <= i < v@.len() ==> call_requires(f, (&v@[i],)),
+    ensures r is Ok ==> r->Ok_0@.len() == v@.len() && forall|i: int| #![trigger r->Ok_0@[i]] #![trigger v@[i]] 0 <= i < v@.len() ==> call_ensures(f, (&v@[i],), Ok(r->Ok_0@[i])),
+            r is Err ==> exists|i: int| 0 <= i < v@.len() && call_ensures(f, (&#[trigger] v@[i],), Err(r->Err_0)),
+{ v.iter().map(f).collect::<core::result::Result<Vec<U>, E>>() }
+#[verifier::external_body]
+pub fn into_iter_any<T, F: FnMut(T) -> bool>(v: Vec<T>, f: F) -> (r: bool)
+    requires forall|i: int| 0 <= i < v@.len() ==> call_requires(f, (v@[i],)),
+    ensures r ==> exists|i: int| 0 <= i < v@.len() && call_ensures(f, (#[trigger] v@[i],), true),
+            !r ==> forall|i: int| 0 <= i < v@.len() ==> call_ensures(f, (#[trigger] v@[i],), false),
+{ v.into_iter().any(f) }
+
 pub trait ServerCertVerifier {
     fn verify_server_cert(&self, end_entity: &CertificateDer, intermediates: &[CertificateDer], server_name: &ServerName, ocsp_response: &[u8], now: UnixTime) -> core::result::Result<ServerCertVerified, rustls::Error>;
     fn verify_tls12_signature(&self, message: &[u8], cert: &CertificateDer, dss: &DigitallySignedStruct) -> core::result::Result<HandshakeSignatureValid, rustls::Error>;
@@ -120,9 +205,8 @@ pub trait ServerCertVerifier {
 pub trait ClientCertVerifier {
     fn offer_client_auth(&self) -> bool;
     fn client_auth_mandatory(&self) -> bool;
+    fn verify_client_cert(&self, end_entity: &CertificateDer, intermediates: &[CertificateDer], now: UnixTime) -> core::result::Result<ClientCertVerified, rustls::Error>;
 }
-// the base verifier's certificate check (self-signed, Ed25519, valid for an accepted network name): NOT verified, uninterpreted
-pub uninterp spec fn base_cert_ok(v: CertVerifier, end_entity: CertificateDer, intermediates: Seq<CertificateDer>, server_name: ServerName, now: UnixTime) -> bool;
 
 // quinn::Connection: what the TLS layer reports as the peer's certificate chain (rustls: end-entity first)
 pub struct QuinnConnection { pub chain: Seq<CertificateDer>, pub sid: usize }
@@ -161,6 +245,28 @@ SPEC = r'''
 pub open spec fn pinned_accepts(v: ExpectedCertVerifier, end_entity: CertificateDer, intermediates: Seq<CertificateDer>, server_name: ServerName, now: UnixTime) -> bool {
     cert_id(end_entity) is Ok && cert_id(end_entity)->Ok_0 == v.1 && base_cert_ok(v.0, end_entity, intermediates, server_name, now)
 }
+
+// C14 / C01, written from the statement.  A certificate is "a valid self-signed Ed25519 certificate permitting <usage>" when webpki parses it,
+// and validates it against a trust store holding NOTHING BUT this very certificate, with Ed25519 as the only signature algorithm
+pub open spec fn self_signed_ok(ee: CertificateDer, inter: Seq<CertificateDer>, now: UnixTime, usage: KeyUsage) -> bool {
+    &&& webpki::ee_parses(ee.der) && webpki::anchor_parses(ee.der)
+    &&& webpki::path_ok(ee.der, ed25519_sig_algs(), seq![TrustAnchor { of: ee.der }], inter, now, usage)
+}
+pub open spec fn configured_name(v: CertVerifier, n: Seq<char>) -> bool { exists|i: int| 0 <= i < v.server_names@.len() && #[trigger] v.server_names@[i]@ == n }
+// what a DIALER demands of the listener's certificate: valid self-signed Ed25519 for server authentication, the name it asked for is a DNS name
+// the verifier is configured for (the dialer's own network name, unit tls_config), and the certificate is valid for exactly that name
+pub open spec fn base_cert_ok(v: CertVerifier, end_entity: CertificateDer, intermediates: Seq<CertificateDer>, server_name: ServerName, now: UnixTime) -> bool {
+    &&& self_signed_ok(end_entity, intermediates, now, KeyUsage::Server)
+    &&& server_name is DnsName && configured_name(v, server_name->DnsName_0.n)
+    &&& webpki::name_ok(end_entity.der, server_name)
+}
+// what a LISTENER demands of a dialer's certificate: valid self-signed Ed25519 for client authentication, valid for at least one of the names the
+// listener accepts (its primary or alternate network name, unit tls_config)
+pub open spec fn client_cert_ok(v: CertVerifier, end_entity: CertificateDer, intermediates: Seq<CertificateDer>, now: UnixTime) -> bool {
+    &&& self_signed_ok(end_entity, intermediates, now, KeyUsage::Client)
+    &&& exists|i: int| 0 <= i < v.server_names@.len() && webpki::name_ok(end_entity.der, ServerName::DnsName(DnsName { n: #[trigger] v.server_names@[i]@ }))
+}
+pub open spec fn names_wf(v: CertVerifier) -> bool { forall|i: int| 0 <= i < v.server_names@.len() ==> dns_name_wf(#[trigger] v.server_names@[i]@) }
 '''
 
 
@@ -172,12 +278,88 @@ def unprefix_params(e):
         e.log('X9', 'parameter(s) with a leading underscore renamed (x%d) so that the contract can name them' % k)
 
 
+def unprefix_ocsp(e):
+    """X9: `_ocsp_response` -> `ocsp_response` (the trait declaration names it so)"""
+    t2, k = re.subn(r'\b_ocsp_response\b', 'ocsp_response', e.text)
+    if k:
+        e.text = t2
+        e.log('X9', 'parameter with a leading underscore renamed')
+
+
 def name_closure_params(e):
     """X9: `|_|` closure parameters get a name (Verus does not accept `_` there)"""
     t2, k = re.subn(r'\|_\|', '|_unused|', e.text)
     if k:
         e.text = t2
         e.log('X9', '`|_|` closure parameter named (x%d)' % k)
+
+
+def eta_pki_error(e):
+    """X11: the function path handed to map_err is eta-expanded"""
+    t2, k = re.subn(r'\.map_err\(\s*pki_error\s*\)', '.map_err(|e| pki_error(e))', e.text)
+    if k:
+        e.text = t2
+        e.log('X11', '`.map_err(pki_error)` eta-expanded (x%d)' % k)
+
+
+def _closure_at(t, i):
+    """t[i] == '|': returns (param, body, end) of `|param| body` whose end is the `)` closing the call the closure is an argument of"""
+    m = re.compile(r'\|\s*(\w+)\s*\|\s*').match(t, i)
+    if not m:
+        return None
+    depth, j = 0, m.end()
+    while j < len(t):
+        c = t[j]
+        if c in '([{':
+            depth += 1
+        elif c in ')]}':
+            if depth == 0:
+                break
+            depth -= 1
+        j += 1
+    return m.group(1), t[m.end():j].strip(), j
+
+
+def pipelines(e):
+    """X13: the three iterator pipelines -> assumed generic functions; the closures get the contract their body's shape determines"""
+    t = e.text
+    k = 0
+    # <recv>.iter().find(|x| <body>)
+    m = re.search(r'(\bself\s*\.\s*\w+)\s*\.\s*iter\(\)\s*\.\s*find\(\s*(?=\|)', t)
+    if m:
+        c = _closure_at(t, m.end())
+        if c:
+            x, body, end = c
+            b = re.fullmatch(r'(\w+)\.as_str\(\)\s*==\s*(\w+)\.as_ref\(\)', body)
+            ann = ('|%s: &&String| -> (b: bool) ensures b == (%s@ == %s.n) { %s }' % (x, b.group(1), b.group(2), body)) if b and b.group(1) == x else '|%s| %s' % (x, body)
+            t = t[:m.start()] + 'iter_find(&%s, %s' % (re.sub(r'\s+', '', m.group(1)), ann) + t[end:]
+            k += 1
+    # <recv>.iter().map(|x| <body>).collect::<Result<Vec<_>, _>>()
+    m = re.search(r'(\bself\s*\.\s*\w+)\s*\.\s*iter\(\)\s*\.\s*map\(\s*(?=\|)', t)
+    if m:
+        c = _closure_at(t, m.end())
+        if c:
+            x, body, end = c
+            m2 = re.compile(r'\)\s*\.\s*collect::<\s*Result<\s*Vec<_>\s*,\s*_\s*>\s*>\(\)').match(t, end)
+            if m2:
+                b = re.fullmatch(r'ServerName::try_from\(\s*(\w+)\.as_str\(\)\s*\)', body)
+                ann = ('|%s: &String| -> (o: core::result::Result<ServerName, InvalidDnsNameError>) ensures o is Ok <==> dns_name_wf(%s@), o is Ok ==> o->Ok_0 == ServerName::DnsName(DnsName { n: %s@ }) { %s }'
+                       % (x, x, x, body)) if b and b.group(1) == x else '|%s| %s' % (x, body)
+                t = t[:m.start()] + 'iter_map_collect_result(&%s, %s)' % (re.sub(r'\s+', '', m.group(1)), ann) + t[m2.end():]
+                k += 1
+    # <local>.into_iter().any(|x| <body>)
+    m = re.search(r'\b(\w+)\s*\.\s*into_iter\(\)\s*\.\s*any\(\s*(?=\|)', t)
+    if m:
+        c = _closure_at(t, m.end())
+        if c:
+            x, body, end = c
+            b = re.fullmatch(r'\{\s*(\w+)\s*\.\s*end_entity\(\)\s*\.\s*verify_is_valid_for_subject_name\(\s*&(\w+)\s*\)\s*\.\s*is_ok\(\)\s*\}', body)
+            ann = ('|%s: ServerName| -> (b: bool) ensures b == webpki::name_ok(%s.ee, %s) %s' % (x, b.group(1), x, body)) if b and b.group(2) == x else '|%s| %s' % (x, body)
+            t = t[:m.start()] + 'into_iter_any(%s, %s' % (m.group(1), ann) + t[end:]
+            k += 1
+    if k:
+        e.text = t
+        e.log('X13', 'iterator pipeline(s) rendered as assumed generic functions over the closure contract (x%d)' % k)
 
 
 def sig_contract(who, tls13):
@@ -198,12 +380,25 @@ def build(ctx):
     sigrw = [dict(rule='X5', pattern=r"\bCertificateDer<'\w+>", repl='CertificateDer', regex=True, optional=True),
              dict(rule='X5', pattern='rustls::DigitallySignedStruct', repl='DigitallySignedStruct', optional=True)]
     # ---- CertVerifier as server-cert verifier (client side of a dial without pin) ---------------------------------
-    t += '''
-impl ServerCertVerifier for CertVerifier {
-    #[verifier::external_body]
-    fn verify_server_cert(&self, end_entity: &CertificateDer, intermediates: &[CertificateDer], server_name: &ServerName, ocsp_response: &[u8], now: UnixTime) -> (r: core::result::Result<ServerCertVerified, rustls::Error>)
-        ensures r is Ok <==> base_cert_ok(*self, *end_entity, intermediates@, *server_name, now) { unimplemented!() }   // NOT verified (iterator / closure pipeline, webpki)
-'''
+    ltrw = [dict(rule='X5', pattern=r"\b(CertificateDer|EndEntityCert|TrustAnchor)<'\w+>", repl=r'\1', regex=True, optional=True)]
+    t += C.item(CRYPTO, 'type CertChainAndRoots', rewrites=[dict(rule='X5', pattern=r"\b(CertificateDer|EndEntityCert|TrustAnchor)<'a>", repl=r'\1', regex=True)])
+    t += C.fn(CRYPTO, 'fn pki_error', 'pki_error', ['C14', 'C01', 'C06'], ret='r', rewrites=ltrw,
+              prose='total: every webpki error is turned into a rustls error, no panic')
+    t += C.fn(CRYPTO, 'fn prepare_for_self_signed', 'prepare_for_self_signed', ['C14', 'C01', 'C03'], ret='r', rewrites=ltrw, transforms=[eta_pki_error], spec='''
+    ensures
+        r is Ok <==> webpki::ee_parses(end_entity.der) && webpki::anchor_parses(end_entity.der), // @OBL prepare_for_self_signed::fails_closed [C14,C01] a certificate webpki cannot parse (as an end entity, as a trust anchor) is refused
+        r is Ok ==> r->Ok_0.0.der == end_entity.der && r->Ok_0.1@ == intermediates@, // @OBL prepare_for_self_signed::validates_the_presented_certificate [C14,C01,C03] the certificate handed to webpki for validation is the one the peer presented as its own, with the intermediates it sent
+        r is Ok ==> r->Ok_0.2@ == seq![TrustAnchor { of: end_entity.der }], // @OBL prepare_for_self_signed::only_trust_root_is_the_certificate_itself [C14,C01,C03] the trust store holds exactly one anchor, made from the presented end-entity certificate itself (self-signed policy): never a certificate from the chain the peer sent along, never a second root
+''')
+    t += 'impl ServerCertVerifier for CertVerifier {\n'
+    t += C.fn(CRYPTO, 'impl ServerCertVerifier for CertVerifier :: fn verify_server_cert', 'CertVerifier::verify_server_cert', ['C14', 'C01', 'C03'], ret='r', pub=False,
+              rewrites=sigrw + ltrw, transforms=[unprefix_ocsp, name_closure_params, eta_pki_error, pipelines], spec='''
+    ensures
+        r is Ok ==> self_signed_ok(*end_entity, intermediates@, now, KeyUsage::Server), // @OBL CertVerifier::verify_server_cert::valid_self_signed_ed25519_for_server_auth [C14,C01,C03] a dialer accepts a listener's certificate only if webpki validates it as self-signed (its own and only trust root), Ed25519, within its validity, permitting server authentication
+        r is Ok ==> server_name is DnsName && configured_name(*self, server_name->DnsName_0.n), // @OBL CertVerifier::verify_server_cert::requested_name_is_configured [C14] ... only if the name the dial asked for is a DNS name this verifier is configured for (the dialer's own network name)
+        r is Ok ==> webpki::name_ok(end_entity.der, *server_name), // @OBL CertVerifier::verify_server_cert::certificate_valid_for_requested_name [C14] ... only if the certificate is valid for exactly the name asked for: a listener of another network is refused whatever its key
+        base_cert_ok(*self, *end_entity, intermediates@, *server_name, now) ==> r is Ok, // @OBL CertVerifier::verify_server_cert::accepts_own_network [C14,C05,C13] and a certificate that meets all of that is accepted (nodes of the same network can connect)
+''')
     for v in ('2', '3'):
         t += C.fn(CRYPTO, 'impl ServerCertVerifier for CertVerifier :: fn verify_tls1%s_signature' % v, 'CertVerifier(server)::verify_tls1%s_signature' % v,
                   ['C01'], ret='r', pub=False, rewrites=sigrw, transforms=[unprefix_params], spec=sig_contract('CertVerifier(server)', v == '3'))
@@ -215,6 +410,13 @@ impl ServerCertVerifier for CertVerifier {
     t += C.fn(CRYPTO, 'impl ClientCertVerifier for CertVerifier :: fn client_auth_mandatory', 'CertVerifier::client_auth_mandatory', ['C01'], ret='r', pub=False, spec='''
     ensures
         r == true, // @OBL CertVerifier::client_auth_mandatory::always [C01] client authentication is mandatory: a dialer without a certificate is never admitted (mTLS)
+''')
+    t += C.fn(CRYPTO, 'impl ClientCertVerifier for CertVerifier :: fn verify_client_cert', 'CertVerifier::verify_client_cert', ['C14', 'C01'], ret='r', pub=False,
+              rewrites=sigrw + ltrw, transforms=[name_closure_params, eta_pki_error, pipelines], spec='''
+    ensures
+        r is Ok ==> self_signed_ok(*end_entity, intermediates@, now, KeyUsage::Client), // @OBL CertVerifier::verify_client_cert::valid_self_signed_ed25519_for_client_auth [C14,C01] a listener admits a dialer's certificate only if webpki validates it as self-signed (its own and only trust root), Ed25519, within its validity, permitting client authentication
+        r is Ok ==> client_cert_ok(*self, *end_entity, intermediates@, now), // @OBL CertVerifier::verify_client_cert::valid_for_an_accepted_name [C14] ... and only if it is valid for at least one of the names the listener accepts: a dialer of another network is refused whatever its key
+        names_wf(*self) && client_cert_ok(*self, *end_entity, intermediates@, now) ==> r is Ok, // @OBL CertVerifier::verify_client_cert::accepts_own_network [C14,C05,C13] and (the configured names being well-formed DNS names) a certificate that meets all of that is admitted
 ''')
     t += '}\n// (rendered as free functions: this Verus build cannot resolve two same-named trait methods on one type)\n'
     for v in ('2', '3'):
